@@ -116,7 +116,8 @@ def _work(job: tuple) -> dict:
     parts = partitioners(block_sizes)
     k = 0
     for L in range(0, length + 1):
-        for seq in itertools.product(alpha, repeat=L):
+        for idx in itertools.product(range(len(alpha)), repeat=L):
+            seq = tuple(alpha[i] for i in idx)
             k += 1
             if k % nshards != shard:
                 continue
@@ -150,11 +151,33 @@ def _work(job: tuple) -> dict:
                         'scenario': '%d qudits: %s' % (n, [
                             '%s%s' % (g.name[:8], loc) for g, loc, _ in seq]),
                         'args': name, 'observed': errs[0],
+                        'case': {'n': n, 'rich': rich, 'seq': list(idx),
+                                 'pass': name},
                     })
                 if not st['samples'] and L == length:
                     st['samples'].append({'circuit': C.describe(pre),
                                           'pass': name})
     return stats
+
+
+def replay(repo: str, rep: dict) -> dict | None:
+    """Re-run one recorded circuit through one partitioner."""
+    fi = rep.get('failing_input') or {}
+    case = fi.get('case')
+    if not case:
+        return None
+    alpha = alphabet(case['n'], case['rich'])
+    pre = build(case['n'], tuple(alpha[i] for i in case['seq']))
+    mk = dict(partitioners((2, 3, 4)))[case['pass']]
+    c = pre.copy()
+    try:
+        H.install()
+        H.drive(mk().run(c, PassData(c)))
+        errs = contract(case['pass'], pre, c)
+    except Exception as e:     # noqa: BLE001
+        errs = ['raised %s: %s' % (type(e).__name__, e)]
+    return {'case': case, 'input': C.describe(pre), 'output': C.describe(c),
+            'reproduced': bool(errs), 'errors': errs[:3]}
 
 
 def _distinct(fails: list) -> list:
